@@ -4,6 +4,7 @@ import (
 	"bytes"
 	"encoding/hex"
 	"fmt"
+	"strings"
 
 	"github.com/brocaar/lorawan"
 
@@ -172,6 +173,70 @@ func runC03(r *engine.Run) {
 		n    int
 	}
 	frmForms := []frmForm{{"none", 0}, {"opaque", 1}, {"opaque", 16}, {"opaque", 17}, {"opaque", 242}, {"cmds", 12}}
+	// frames whose FOpts / FRMPayload cannot be serialised: the operation cannot have applied
+	// the transform, so a nil error is the violation
+	type badForm struct {
+		name string
+		mk   func() *lorawan.MACPayload
+	}
+	p5, p0 := uint8(5), uint8(0)
+	badCmd := func() *lorawan.MACCommand {
+		return &lorawan.MACCommand{CID: lorawan.DevStatusAns, Payload: &lorawan.DevStatusAnsPayload{Margin: 40}}
+	}
+	goodCmd := func() *lorawan.MACCommand { return &lorawan.MACCommand{CID: lorawan.LinkCheckReq} }
+	badForms := []badForm{
+		{"frm=command,fport=absent", func() *lorawan.MACPayload { return &lorawan.MACPayload{FRMPayload: []lorawan.Payload{goodCmd()}} }},
+		{"frm=command,fport=5", func() *lorawan.MACPayload { return &lorawan.MACPayload{FPort: &p5, FRMPayload: []lorawan.Payload{goodCmd()}} }},
+		{"frm=out-of-range-command,fport=0", func() *lorawan.MACPayload { return &lorawan.MACPayload{FPort: &p0, FRMPayload: []lorawan.Payload{badCmd()}} }},
+		{"frm=command+out-of-range-command,fport=0", func() *lorawan.MACPayload {
+			return &lorawan.MACPayload{FPort: &p0, FRMPayload: []lorawan.Payload{goodCmd(), badCmd()}}
+		}},
+		{"frm=bytes+command,fport=5", func() *lorawan.MACPayload {
+			return &lorawan.MACPayload{FPort: &p5, FRMPayload: []lorawan.Payload{&lorawan.DataPayload{Bytes: []byte{1, 2, 3}}, goodCmd()}}
+		}},
+		{"fopts=out-of-range-command", func() *lorawan.MACPayload { return &lorawan.MACPayload{FHDR: lorawan.FHDR{FOpts: []lorawan.Payload{badCmd()}}} }},
+		{"fopts=command+out-of-range-command", func() *lorawan.MACPayload {
+			return &lorawan.MACPayload{FHDR: lorawan.FHDR{FOpts: []lorawan.Payload{goodCmd(), badCmd()}}}
+		}},
+	}
+	badOps := []string{"EncryptFRMPayload", "DecryptFRMPayload", "EncryptFOpts", "DecryptFOpts"}
+	r.PartDims("method/unserialisable", []string{"mtype:4", fmt.Sprintf("form:%d", len(badForms)), "operation:4"}, uint64(4*len(badForms)*4), func(c *engine.Case) {
+		mt := lorawan.MType(2 + c.Index%4)
+		form := badForms[(c.Index/4)%uint64(len(badForms))]
+		op := badOps[c.Index/4/uint64(len(badForms))]
+		isFOpts := strings.HasPrefix(form.name, "fopts")
+		if isFOpts != strings.HasSuffix(op, "FOpts") {
+			c.Outcome("filtered(operation does not touch the unserialisable part)")
+			return
+		}
+		c.Eval()
+		c.NonTrivial()
+		mp := form.mk()
+		mp.FHDR.DevAddr, mp.FHDR.FCnt = lorawan.DevAddr{1, 2, 3, 4}, 9
+		p := lorawan.PHYPayload{MHDR: lorawan.MHDR{MType: mt, Major: lorawan.LoRaWANR1}, MACPayload: mp}
+		before := pubPrint(p)
+		var err error
+		k := lorawan.AES128Key{1, 2, 3}
+		switch op {
+		case "EncryptFRMPayload":
+			err = p.EncryptFRMPayload(k)
+		case "DecryptFRMPayload":
+			err = p.DecryptFRMPayload(k)
+		case "EncryptFOpts":
+			err = p.EncryptFOpts(k)
+		case "DecryptFOpts":
+			err = p.DecryptFOpts(k)
+		}
+		if err == nil && pubPrint(p) == before {
+			c.Fail("method/"+op+"/nil-without-transform", fmt.Sprintf("%s on a %v frame with %s returned nil and left the frame as it was (its content cannot be serialised, so nothing can have been transformed)", op, mt, form.name), nil)
+			return
+		}
+		if err == nil {
+			c.Outcome("unserialisable/transformed-something(recorded)")
+		} else {
+			c.Outcome("unserialisable/error")
+		}
+	})
 	spM := (&engine.Space{}).Dim("mtype", 4).Dim("fport", 4).Dim("fopts-form", len(foForms)).Dim("frm-form", len(frmForms)).Dim("key", 3).Dim("devaddr", 3).Dim("fcnt", 5)
 	r.PartDims("method/PHYPayload", spM.Desc(), spM.N(), func(c *engine.Case) {
 		var ch [7]int
